@@ -309,6 +309,18 @@ def rule_r4(ctx) -> List[R.Inst]:
     # (confirmed as frame writes by the effect summary) on receivers that denote self.hits / self.holds
     reset_cols: Dict[str, set] = {}
     rfn = M.nfn(OSUMAP + ".reset_samples")
+    if not resets_notes:
+        # the effect summary reads the function as written; a table-driven `setattr(notes, name, value)` over a literal table is, on
+        # the normal form, a store through the generated column setter of a note list (what such a setter does is C16.R11's business)
+        slots0 = M.map_slots(OSUMAP)
+        lv0 = {n.target.id: {x.attr for x in n.iter.elts if isinstance(x, ast.Attribute) and unparse(x.value) == "self"}
+               for n in ast.walk(rfn.node) if isinstance(n, ast.For) and isinstance(n.target, ast.Name) and isinstance(n.iter, (ast.Tuple, ast.List))}
+        for n in ast.walk(rfn.node):
+            if isinstance(n, ast.Assign) and isinstance(n.targets[0], ast.Attribute):
+                r0 = n.targets[0].value
+                owners = lv0.get(r0.id, set()) if isinstance(r0, ast.Name) else ({r0.attr} if isinstance(r0, ast.Attribute) and unparse(r0.value) == "self" else set())
+                if any(o in slots0 and n.targets[0].attr in M.list_columns(slots0[o]) and M.method(slots0[o], n.targets[0].attr) is None for o in owners):
+                    resets_notes = True
     real_sites = {st.text for sites in rs.mut.values() for st in sites if "setter" in (st.via or "")}
     real_attrs = set()
     for t in real_sites:
@@ -321,17 +333,17 @@ def rule_r4(ctx) -> List[R.Inst]:
     last_bound = {}
     slots = M.map_slots(OSUMAP)
 
-    def generated_store(t: ast.Attribute) -> bool:
-        """`self.<slot>.<col> = ..` on the normal form: a store through the generated column setter of the slot's list class"""
-        r = t.value
-        if isinstance(r, ast.Attribute) and unparse(r.value) == "self" and r.attr in slots and resets_notes:
-            lc = slots[r.attr]
-            return t.attr in M.list_columns(lc) and M.method(lc, t.attr) is None
-        return False
     loopvars: Dict[str, set] = {}
     for n in walk_no_nested(rfn.node):
         if isinstance(n, ast.For) and isinstance(n.target, ast.Name) and isinstance(n.iter, (ast.Tuple, ast.List)):
             loopvars[n.target.id] = {x.attr for x in n.iter.elts if isinstance(x, ast.Attribute) and unparse(x.value) == "self"}
+
+    def generated_store(t: ast.Attribute) -> bool:
+        """`self.<slot>.<col> = ..` (or `<v>.<col> = ..` with v ranging over (self.<slot>, …)) on the normal form: a store through the
+        generated column setter of the slot's list class"""
+        r = t.value
+        owners = {r.attr} if isinstance(r, ast.Attribute) and unparse(r.value) == "self" else (loopvars.get(r.id, set()) if isinstance(r, ast.Name) else set())
+        return bool(owners) and resets_notes and all(o in slots and t.attr in M.list_columns(slots[o]) and M.method(slots[o], t.attr) is None for o in owners)
     loops_of = {n.target.id: n for n in walk_no_nested(rfn.node) if isinstance(n, ast.For) and isinstance(n.target, ast.Name)}
     last_of = {n.target.id: {n.iter.elts[-1].attr} for n in loops_of.values() if isinstance(n.iter, (ast.Tuple, ast.List)) and n.iter.elts
                and isinstance(n.iter.elts[-1], ast.Attribute)}
